@@ -74,6 +74,7 @@ def specified_rules(prog):
 
 
 def check(prog, run):
+    check_conditionless_fragment_type(prog, run, "T1")
     check_all_pairs_within(prog, run, "P1")
     check_allowed_position_table(prog, run, "V1")
     check_parent_exclusivity(prog, run, "E1")
@@ -899,3 +900,70 @@ def check_all_pairs_within(prog, run, rule_id):
                    "occurrences is never looked at" % ("`%s` is one fixed element compared with the rest" % fixed[0].id if fixed else how))
     elif verdict is None:
         raise AnalysisError("C06.%s: how _conflicts_within enumerates the pairs of a response key was not recognised" % rule_id)
+
+
+def check_conditionless_fragment_type(prog, run, rule_id):
+    """An inline fragment without a type condition keeps the type it sits in."""
+    from .. import boolx
+    import re
+    VIS = "py_gql.validation.visitors"
+    r = run.rule(rule_id, "TypeInfoVisitor.enter_inline_fragment: without a type condition, with a current type that is an output type, every "
+                          "execution pushes exactly that current type (`self.type`) as the fragment's type - no further class test on it: "
+                          "the enclosing field's declared type still carries its list / non-null wrappers at that point, and a test those "
+                          "fail blanks the type for the whole fragment, so unknown fields, leaf sub-selections and unknown arguments "
+                          "inside `... @include(if: $x) { }` pass validation", 1)
+    ti = prog.get_class(VIS, "TypeInfoVisitor")
+    m = ti.find_method("enter_inline_fragment")
+    if m is None:
+        raise AnalysisError("C06.%s: TypeInfoVisitor.enter_inline_fragment not found" % rule_id)
+    run.looked_at(m)
+    np_ = [p for p in m.params if p != prog.self_name(m)][0]
+
+    def decide(t):
+        if t == "%s.type_condition" % np_:
+            return False
+        if t == "%s.type_condition is None" % np_:
+            return True
+        if t == "self.type":
+            return True
+        if t == "self.type is None":
+            return False
+        if re.match(r"^is_output_type\(.*\)$", t):
+            return True
+        return None
+    try:
+        _ev, exits = boolx.walk_under(m.node, decide)
+    except ValueError as e:
+        raise AnalysisError("C06.%s: %s" % (rule_id, e))
+    pushed = set()
+    for kind, st, env in exits:
+        if kind == "raise":
+            continue
+        atoms = {a: b for a, b in env.items() if a not in boolx.META}
+        stmts = env.get(boolx.STMTS, ())
+        vals = []
+        for c in env.get(boolx.CALLS, ()):
+            if isinstance(c.func, ast.Attribute) and c.func.attr == "append" and "_type_stack" in ast.unparse(boolx.path_subst(c.func.value, boolx.path_env(stmts))) and c.args:
+                holder = c
+                while holder is not None and not isinstance(holder, ast.stmt):
+                    holder = getattr(holder, "_parent", None)
+                v = boolx.path_value(stmts, holder, boolx.path_subst(c.args[0], boolx.path_env(stmts, holder)), atoms)
+                for _ in range(3):
+                    if isinstance(v, ast.IfExp):
+                        try:
+                            class _Env(dict):
+                                def __missing__(self, k):
+                                    d_ = decide(k)
+                                    if d_ is None:
+                                        raise KeyError(k)
+                                    return d_
+                            v = v.body if boolx.evaluate(v.test, _Env(atoms)) else v.orelse
+                        except Exception:
+                            break
+                vals.append(" ".join(ast.unparse(v).split()))
+        pushed.add(tuple(vals) or ("<nothing pushed>",))
+    r.instance("condition-less fragment, current type an output type: pushes %s" % sorted(pushed))
+    if pushed != {("self.type",)}:
+        run.report(r, "%s:TypeInfoVisitor.enter_inline_fragment:type-not-kept" % VIS, m.where(),
+                   "for an inline fragment without a type condition the pushed type is %s on some execution, not the current type: the "
+                   "fragment's selection set is validated against no type (or another one)" % sorted(pushed))
